@@ -13,18 +13,27 @@ import record
 import tv
 
 
+_OBJ = {}
+
+
 def _rec_one(args):
     case, via_object = args
     call = None
+    repeat = 2 if case.get('k', 0) % 3 == 0 else 1
     if via_object:
+        _OBJ.clear()
+
         def call(sig, fs, f_range, **o):
             from bycycle import Bycycle
-            b = Bycycle(center_extrema=o.get('center_extrema', 'peak'), burst_method=o.get('burst_method', 'cycles'),
+            if 'b' in _OBJ:                 # second call of a repeated case: re-fit the SAME object (it holds the same option objects)
+                _OBJ['b'].fit(sig, fs, f_range)
+                return _OBJ['b'].df_features
+            b = _OBJ['b'] = Bycycle(center_extrema=o.get('center_extrema', 'peak'), burst_method=o.get('burst_method', 'cycles'),
                         burst_kwargs=o.get('burst_kwargs'), thresholds=o.get('threshold_kwargs'),
                         find_extrema_kwargs=o.get('find_extrema_kwargs'), return_samples=o.get('return_samples', True))
             b.fit(sig, fs, f_range)
             return b.df_features
-    r, _ = record.record_compute_features(case, call=call)
+    r, _ = record.record_compute_features(case, call=call, repeat=repeat)
     return r
 
 
